@@ -347,3 +347,10 @@ def real_engines(ctx, fl):
         ctx.hit(f"engine_kind:{kind}")
         if i % 24 == 0:
             ctx.sample("engine", {"defuzzifier": kind, "setting": cfg})
+
+
+def passive(ctx, fl, probe):
+    """attach this property's always-on monitor to a foreign workload (the repository's test-suite, see vf/pytest_plugin.py)"""
+    mon = CascadeMonitor(ctx, fl)
+    mon.install(probe)
+    return None
